@@ -628,9 +628,23 @@ impl<A: Float + DivAssign + Sum + RelativeEq<A, Epsilon: Clone>>
     pub fn remove_duplicate_rows(&self) -> AffFuncBase<PolytopeT, OwnedRepr<A>> {
         let normal = self.clone().normalize();
 
+        // rows with a negligible norm are not normalised and only count as duplicates when identical
+        let unit: Vec<bool> = self
+            .mat
+            .outer_iter()
+            .map(|row| row.iter().map(|&x| x.powi(2)).sum::<A>().sqrt() > A::epsilon())
+            .collect();
+
         let mut dups: Vec<usize> = Vec::with_capacity(self.n_constraints());
         for i in (0..self.n_constraints()).rev() {
             for j in (0..i).rev() {
+                if !(unit[i] && unit[j]) {
+                    if normal.mat.row(i) == normal.mat.row(j) && normal.bias[i] == normal.bias[j] {
+                        dups.push(i);
+                        break;
+                    }
+                    continue;
+                }
                 let mat_eq = ArrayView1::relative_eq(
                     &normal.mat.row(i),
                     &normal.mat.row(j),
